@@ -311,7 +311,7 @@ def generate(tier):
     from .common import underscorify, localsify
     named = [c for c in cases if c is not None and ('|n1|' in c.key or '|n2|' in c.key or '|n2@' in c.key or '|n1@' in c.key or '|n5' in c.key)]
     for c in named[::6]:
-        for tr in (underscorify, lambda c_: localsify(c_, 0), lambda c_: localsify(c_, 1)):
+        for tr in (underscorify, lambda c_: localsify(c_, 0), lambda c_: localsify(c_, 1), lambda c_: localsify(c_, 2)):
             r_ = tr(c)
             if r_:
                 cases.append(r_)
